@@ -1,0 +1,25 @@
+//go:build verif
+
+package datadog
+
+import (
+	"github.com/relex/gotils/logger"
+	"github.com/relex/slog-agent/base"
+	"github.com/relex/slog-agent/output/shared"
+)
+
+// Add-only exports for the verification harness (property C11).
+
+// VerifChunkLimits returns the constants Config.NewChunkMaker passes to buildNewChunkFunc.
+func VerifChunkLimits() (maxRecords, maxSizeBytes int) { return chunkMaxRecords, chunkMaxSizeBytes }
+
+// VerifChunkIDSuffix returns the output-specific chunk ID suffix.
+func VerifChunkIDSuffix() string { return chunkIDSuffix }
+
+// VerifNewChunkMakerWithLimits is Config.NewChunkMaker with the two limits as arguments
+// (the limits are constants in this package, so small ones cannot be set from outside).
+func VerifNewChunkMakerWithLimits(parentLogger logger.Logger, maxRecords, maxSizeBytes int) base.LogChunkMaker {
+	newChunkFunc := buildNewChunkFunc(parentLogger, maxRecords, maxSizeBytes)
+	chunkFactory := shared.NewChunkFactory(chunkIDSuffix, bufCapacity, newChunkFunc)
+	return shared.NewMessagePacker(parentLogger, chunkFactory)
+}
